@@ -73,3 +73,8 @@ mk d61_ctx_defer_right_after_store  C08-ctx-stored-before-entry-check          f
 mk d62_limit_atoi_structured        C13-limit-offset-atoi-unstructured         fix_c13m.py
 mk d63_upsert_children_by_index     C14-upsert-children-shared-variable        fix_c14m.py
 mk d64_indent_prefix_of_part_text   C01-redundant-whitespace-indent-slice      fix_c01m.py
+mk d65_strict_appended_to_dialect   C19-strict-drops-dialect                   fix_c19n.py
+mk d66_strict_and_dialect_both      C19-strict-drops-dialect                   fix_c19n2.py
+mk d67_text_from_get_document       C18-full-sync-shortcut                     fix_c18n.py
+mk d68_dedup_key_all_components     C15-qualified-dedupe-fullname              fix_c15n.py
+mk d69_locations_table_one_pass     C20-recovery-location-rescan               fix_c20n.py
